@@ -124,8 +124,13 @@ class SkipFamily(common.Family):
     if site == 'malformed':
       mal_op = rng.choice(['apply', 'assign', 'filter', 'sink'])
       err = rng.choice(['TypeError', 'TypeError', 'KeyError'])
-    return {
+    cfg = {
         'mal_op': mal_op,
+        # a well-behaved sink upstream of the failing operator: it has to be
+        # closed too when the error ends the iteration
+        # (a sink's output cannot be assigned to: no assign after it)
+        'up_sink': site in ('source', 'apply', 'filter', 'malformed') and
+                   mal_op in ('', 'apply', 'filter') and rng.random() < 0.5,
         'n': n, 'rows': rows, 'salt': rng.randrange(1, 10), 'site': site,
         'poison': poison, 'err': err, 'ignore': rng.random() < 0.7,
         # source-level skipping is configured on the data source itself
@@ -136,12 +141,17 @@ class SkipFamily(common.Family):
         'sim': {'fine': num_threads > 0 and rng.random() < 0.2,
                 'stay': rng.choice([0.0, 0.0, 0.5, 0.8])},
     }
+    if cfg['up_sink']:
+      cfg['pre'] = cfg['post'] = False
+    return cfg
 
   # ------------------------------------------------------------------------
-  def _build(self, cfg, data_source, sink):
+  def _build(self, cfg, data_source, sink, up_sink=None):
     from ml_metrics._src.chainables import transform
     t = transform.TreeTransform.new(name='p', num_threads=cfg['num_threads'])
     t = t.data_source(data_source)
+    if up_sink is not None:
+      t = t.sink(up_sink, input_keys='x')
     if cfg['pre']:
       t = t.assign('y', fn=pipes.f_double_plus, input_keys='x')
     site = cfg.get('mal_op') or cfg['site']
@@ -198,7 +208,8 @@ class SkipFamily(common.Family):
       src = None
       ds = io.SequenceDataSource(list(data))
       _POISON.update(ids=poison_ids, err=cfg['err'], fired=[])
-    p = self._build(cfg, ds, sink)
+    up = pipes.ListSink() if cfg.get('up_sink') else None
+    p = self._build(cfg, ds, sink, up)
     it = p.make().iterate(ignore_error=cfg['ignore'])
     got, end = [], None
     try:
@@ -207,6 +218,18 @@ class SkipFamily(common.Family):
       end = ['stop']
     except Exception as e:  # pylint: disable=broad-exception-caught
       end = ['exc', _chain_msgs(e)]
+    # "iteration stops": the caller still holds the iterator; asking again
+    # must not hand out further elements
+    again = []
+    up_closed_at_end = up.closed if up is not None else None
+    if end[0] == 'exc':
+      for _ in range(2):
+        try:
+          again.append(['elem', pipes.rows_of(next(it))])
+        except StopIteration:
+          again.append(['stop'])
+        except Exception as e:  # pylint: disable=broad-exception-caught
+          again.append(['exc', type(e).__name__])
     res = None
     if cfg['agg'] and end == ['stop']:
       res = pipes.norm_result(it.agg_result)
@@ -216,6 +239,7 @@ class SkipFamily(common.Family):
     sim.count('fault:injected_error', len(fired))
     _POISON.update(ids=frozenset(), fired=[])
     return {'ref_rows': ref_rows, 'got': got, 'end': end, 'res': res,
+            'again': again, 'up_closed': up_closed_at_end,
             'sink': {'data': sink.data, 'closed': sink.closed},
             'fired': [list(f) if isinstance(f, tuple) else f for f in fired]}
 
@@ -307,6 +331,15 @@ class SkipFamily(common.Family):
       extra = common.multiset(got_rows) - common.multiset(ref_rows)
       if extra:
         res.append(v('surface', f'extra:{tag}', f'{dict(extra)}'))
+    if any(a[0] == 'elem' for a in obs.get('again', ())):
+      res.append(v('surface', f'iteration-continues:{tag}',
+                   f"after the error {obs['end']} the iterator went on: "
+                   f"{obs['again']}"))
+    if obs.get('up_closed') == 0:
+      how = 'after-error' if obs['end'][0] == 'exc' else 'at-end'
+      res.append(v('sink', f'upstream-not-closed:{how}:{tag}',
+                   f"the sink upstream of {site} was not closed when the "
+                   f"iteration ended with {obs['end'][0]}"))
     if (cfg.get('mal_op') or site) == 'sink' and not obs['sink']['closed']:
       res.append(v('sink', f'not-closed:{tag}', f"{obs['sink']}"))
     left = common.leftover_repo_threads(out)
@@ -317,8 +350,8 @@ class SkipFamily(common.Family):
   def shrink(self, cfg):
     if cfg['sim'].get('fine'):
       c = copy.deepcopy(cfg); c['sim']['fine'] = False; yield c
-    for k in ('pre', 'post', 'agg'):
-      if cfg[k]:
+    for k in ('pre', 'post', 'agg', 'up_sink'):
+      if cfg.get(k):
         c = copy.deepcopy(cfg); c[k] = False; yield c
     if len(cfg['poison']) > 1:
       for i in range(len(cfg['poison'])):
